@@ -508,6 +508,7 @@ func (c *wsConn) handleResponse(frame frame) {
 		delete(c.inflight, frame.ID)
 	}
 	vhook("resp.delete", c, frame.ID)
+	vhook("resp.deleted", c, frame.ID, still && cur.ready == req.ready)
 	c.inflightLk.Unlock()
 }
 
